@@ -77,7 +77,7 @@ class TabWorld:
         self.frame_readers = {}  # table -> DataFrameReader that lives as long as the world (in-memory tables persist)
         self.counter = 0
         self.stats = {"ops": 0, "reads": 0, "chunked_reads": 0, "appends": 0, "finalized": 0, "merges": 0,
-                      "sortedness_faults": 0, "multi_chunk_reads": 0, "buffer_flushes": 0, "tie_merges": 0}
+                      "sortedness_faults": 0, "multi_chunk_reads": 0, "buffer_flushes": 0, "tie_merges": 0, "abandoned_merges": 0}
         self.kinds = set()
 
     # ------------------------------------------------------------ helpers
@@ -400,8 +400,28 @@ class TabWorld:
             if (sc[i] > sc[i - 1]) if descending else (sc[i] < sc[i - 1]):
                 raise OracleViolation("merge_order", f"{what}: score order broken at output row {i} ({sc[i - 1]} -> {sc[i]})", **sig)
 
-    def op_merge_sort(self, group, merge_chunk):
-        """utils.merge_sort (row-dict merge, descending only)."""
+    def _check_merge_prefix(self, runs, got, descending, what, sig):
+        """A merge abandoned after len(got) rows: they must be the best len(got) scores, in order, each an input row."""
+        def key(r):
+            return tuple((float(x) if isinstance(x, (int, float)) and not isinstance(x, bool) else x) for x in r)
+
+        pool = {}
+        for t in runs:
+            for r in t["rows"]:
+                pool[key(r)] = pool.get(key(r), 0) + 1
+        for r in got:
+            if pool.get(key(r), 0) <= 0:
+                raise OracleViolation("merge_multiset", f"{what}: row {r} is not an input row (or was delivered twice)", **sig)
+            pool[key(r)] -= 1
+        want = sorted((float(r[0]) for t in runs for r in t["rows"]), reverse=descending)[: len(got)]
+        have = [float(r[0]) for r in got]
+        if have != want:
+            raise OracleViolation("merge_order", f"{what}: the first {len(got)} rows carry scores {have[:6]}, the best "
+                                  f"{len(got)} of the inputs are {want[:6]}", **sig)
+
+    def op_merge_sort(self, group, merge_chunk, take=None):
+        """utils.merge_sort (row-dict merge, descending only).  take=k: the consumer abandons the merge after k rows
+        (an exception in its loop, a `break`); later merges in the same process must not notice."""
         from mokapot import utils
 
         from .. import knobs
@@ -411,11 +431,23 @@ class TabWorld:
             return
         knobs.set_knobs({"MERGE_SORT_CHUNK_SIZE": merge_chunk})
         try:
-            out = list(utils.merge_sort([t["path"] for t in runs], score_column="score"))
+            it = utils.merge_sort([t["path"] for t in runs], score_column="score")
+            if take is None:
+                out = list(it)
+            else:
+                import itertools
+
+                out = list(itertools.islice(it, take))
+                del it  # abandoned: never resumed, never closed explicitly
         finally:
             knobs.reset_knobs()
         cols = runs[0]["columns"]
         got = [[_norm(r[c]) for c in cols] for r in out]
+        if take is not None:
+            self.stats["abandoned_merges"] = self.stats.get("abandoned_merges", 0) + 1
+            self._check_merge_prefix(runs, got, True, f"merge_sort of {len(runs)} {runs[0]['fmt']} runs abandoned after {take} rows",
+                                     {"impl": "merge_sort", "fmt": runs[0]["fmt"], "abandoned": True})
+            return got
         self.stats["merges"] += 1
         all_sc = [r[0] for t in runs for r in t["rows"]]
         if len(set(all_sc)) < len(all_sc):
@@ -425,7 +457,7 @@ class TabWorld:
                           {"impl": "merge_sort", "fmt": runs[0]["fmt"]})
         return got
 
-    def op_merge_readers(self, group, mode, row_type, reader_chunk, out_chunk):
+    def op_merge_readers(self, group, mode, row_type, reader_chunk, out_chunk, take=None):
         """MergedTabularDataReader via read / chunked / row iterator / merge_readers."""
         from mokapot.streaming import MergedTabularDataReader, merge_readers
         from mokapot.tabular_data import TableType, TabularDataReader
@@ -456,13 +488,23 @@ class TabWorld:
             else:
                 rt = TableType[row_type]
                 got = []
-                for row in m.get_row_iterator(row_type=rt):
+                row_it = m.get_row_iterator(row_type=rt)
+                if take is not None:
+                    import itertools
+
+                    row_it = itertools.islice(row_it, take)
+                for row in row_it:
                     if rt == TableType.DataFrame:
                         got.append(frame_rows(row, cols)[0])
                     elif rt == TableType.Dicts:
                         got.append([_norm(row[c]) for c in cols])
                     else:
                         got.append([_norm(row[c]) for c in cols])
+        if take is not None and mode == "rows":
+            self.stats["abandoned_merges"] = self.stats.get("abandoned_merges", 0) + 1
+            sig["abandoned"] = True
+            self._check_merge_prefix(runs, got, desc, what + f" abandoned after {take} rows", sig)
+            return got
         self.stats["merges"] += 1
         all_sc = [r[0] for t in runs for r in t["rows"]]
         if len(set(all_sc)) < len(all_sc):
@@ -522,8 +564,15 @@ class TabWorld:
 
 
 def run_ops(ops, workdir):
-    """Replay an op list; raises OracleViolation."""
-    w = TabWorld(workdir)
+    """Replay an op list; raises OracleViolation.  The pseudo-op ["new_world", {}] starts a fresh world (new directory,
+    no tables) in the same process: an op list with such markers is a *process history* (several independent
+    histories executed one after the other by one interpreter)."""
+    n = 0
+    w = TabWorld(os.path.join(workdir, f"w{n}"))
     for op in ops:
+        if op[0] == "new_world":
+            n += 1
+            w = TabWorld(os.path.join(workdir, f"w{n}"))
+            continue
         w.apply(op)
     return w
